@@ -57,5 +57,11 @@ Section Entry.
     with_lattice sys (fun s =>
       match mindex_quats (variant_of v) s (quats_of n xs) with Ok r => Ok [r] | Err e => Err e end).
 
+  (* index followed by the pair angles, one pass *)
+  Definition run_mindex_full (v sys : Z) (n : nat) (xs : list F) : res (list F) :=
+    with_lattice sys (fun s =>
+      let angs := angles (variant_of v) s (quats_of n xs) in
+      match mindex_of_angles s angs with Ok r => Ok (r :: angs) | Err e => Err e end).
+
   Definition run_matq (xs : list F) : res (list F) := Ok (mat_of_quat (q_of xs)).
 End Entry.
